@@ -1,4 +1,4 @@
 SPECIFICATION Spec
-CONSTANTS Majors = {4, 5, 6, 7, 8} Minors = {0, 1, 2, 4, 5, 6} Patches = {0, 1, 2} Builds = {0, 1}
+CONSTANTS Majors = {4, 5, 6, 7, 8} Minors = {0, 1, 2, 4, 5, 6, 100} Patches = {0, 1, 2, 100} Builds = {0, 1, 10080}
 INVARIANTS Trichotomy Antisymmetry Transitivity IsLexOrder GatesMonotone RoundTrip Emit
 CHECK_DEADLOCK FALSE
